@@ -943,12 +943,12 @@ def run_generated(rep, tier):
     servers, handles = server_metadata(prog, it0, GCRATE, r'::__(G\d+)Endpoint<', exclude='AsyncGsvc')
     if set(servers) < {'g1', 'g2', 'g3'}:
         raise Inconclusive(f'C04 harness: generated endpoints not found: {servers}')
-    rep.bounds['generated'] = f'generated clients (blocking: g1-g5; async: g1, g3, g4) and generated #[conjure_endpoints] trait of gen-crates/service (real conjure-codegen output; server metadata {servers}); list query argument of 0..2 integers; set<string> query argument of 0..2 distinct members; optional<string> body and optional<string> result, present and absent'
+    rep.bounds['generated'] = f'generated clients (blocking: g1-g6; async: g1, g3, g4) and generated #[conjure_endpoints] trait of gen-crates/service (real conjure-codegen output; server metadata {servers}); list query argument of 0..2 integers; set<string> query argument of 0..2 distinct members; optional<string> body and optional<string> result, present and absent'
     tenv = {'T': ('path', 'MockClient', ())}
 
     def mk(rets):
         tm = {**bodyio.TMODELS, **ep.TMODELS, **models_serde.TMODELS}
-        for g in ('g1', 'g2', 'g3', 'g4', 'g5'):
+        for g in ('g1', 'g2', 'g3', 'g4', 'g5', 'g6'):
             tm[('Handler', 'Gsvc', g)] = T_handler
         tm[('MockClient', 'Client', 'send')] = make_send(prog, servers, handles, rets)
         tm[('MockClient', 'AsyncClient', 'send')] = make_send_async(tm[('MockClient', 'Client', 'send')])
@@ -1043,6 +1043,23 @@ def run_generated(rep, tier):
         c.syms = {'tok': ('token', ts), 'qt': ('token', qs_)}
         run_case(rep, it, dec, prog, c, st, tenv)
         finish_engine(rep, it)
+    # ---- g6: list<integer>, set<string> and a required string as consecutive query arguments (empty collections in front of a value)
+    if only in (None, 'g6'):
+        for nl, ns in ((0, 0), (1, 0), (0, 1), (2, 1)):
+            it = mk({})
+            dec = Decider(rep, it)
+            st = St()
+            c = GenCase('g6', 'Gsvc')
+            items = [z3.BitVec(f'lst{i}', 32) for i in range(nl)]
+            lp = st.ref(Seq(tuple(items)))
+            members = [sym_str(st, f'set{i}', L) for i in range(ns)]
+            sp = st.ref(Seq(tuple(s_ for _, s_ in members)))
+            qp, qs = sym_str(st, 'q_arg', L)
+            c.args = [lp, sp, qp]
+            c.set_args = (1,)
+            c.syms = {'lst_arg': ('list_i32', items), 'set_arg': ('set_str', [s_ for _, s_ in members]), 'q_arg': ('str', qs)}
+            run_case(rep, it, dec, prog, c, st, tenv, f'blocking:list{nl}:set{ns}')
+            finish_engine(rep, it)
     # ---- the generated async client (GsvcAsyncClient) against the same endpoints: g1, g3, g4
     if only in (None, 'async'):
         it = mk({})
@@ -1092,7 +1109,7 @@ def run_generated(rep, tier):
 
         def mka(rets):
             it = mk(rets)
-            for g in ('g1', 'g2', 'g3', 'g4', 'g5'):
+            for g in ('g1', 'g2', 'g3', 'g4', 'g5', 'g6'):
                 it.tmodels[('Handler', 'AsyncGsvc', g)] = T_handler_async
             it.tmodels[('MockClient', 'Client', 'send')] = make_send(prog, aservers, ahandles, rets, async_server=True)
             return it
@@ -1154,7 +1171,9 @@ def run(rep, tier):
              {'op': 'loopback_gen', 'endpoint': 'g4', 'set_arg': sorted([b'a&b'.hex(), b'%'.hex()]), 'opt_body': None, 'ret_opt': None},
              {'op': 'loopback_gen', 'endpoint': 'g4', 'set_arg': [], 'opt_body': b'"x'.hex(), 'ret_opt': b'\xc3\xa9'.hex()},
              {'op': 'loopback_gen', 'endpoint': 'g4', 'set_arg': [''], 'opt_body': '', 'ret_opt': ''},
-             {'op': 'loopback_gen', 'endpoint': 'g5', 'tok': 'a/b+c=', 'qt': 'x+/=='}, {'op': 'loopback_gen', 'endpoint': 'g5', 'tok': '~._-', 'qt': '0'}]
+             {'op': 'loopback_gen', 'endpoint': 'g5', 'tok': 'a/b+c=', 'qt': 'x+/=='}, {'op': 'loopback_gen', 'endpoint': 'g5', 'tok': '~._-', 'qt': '0'},
+             {'op': 'loopback_gen', 'endpoint': 'g6', 'lst_arg': [], 'set_arg': [], 'q_arg': b'x&y'.hex()}, {'op': 'loopback_gen', 'endpoint': 'g6', 'lst_arg': [], 'set_arg': [b'='.hex()], 'q_arg': ''},
+             {'op': 'loopback_gen', 'endpoint': 'g6', 'lst_arg': [7, -1], 'set_arg': [], 'q_arg': b'?'.hex()}]
     # the same requests against the async server flavour
     twins += [dict(t, async_server=True) for t in twins]
     for op, nat in zip(twins, replay(twins)):
